@@ -31,12 +31,12 @@ DEAD = "sensor_level > 2000"
 LIVE = "sensor_level >= 0"
 
 
-N_KINDS = 19
+N_KINDS = 20
 
 
 def site(rng, k):
     """A fold site: returns dict(kind, decl(var form), use_lit, use_var, var, mutate(value-change line), finding keys)."""
-    kinds = ["sleep", "brightness", "blink", "len-str", "len-list", "flash-pattern", "glyph", "rgb", "fade", "ultra-model", "servo-bounds", "range-count", "expr-fold", "const-arith", "param-shadow", "led-rebind", "swap-fold", "aug-fold", "twin-literals"]
+    kinds = ["sleep", "brightness", "blink", "len-str", "len-list", "flash-pattern", "glyph", "rgb", "fade", "ultra-model", "servo-bounds", "range-count", "expr-fold", "const-arith", "param-shadow", "led-rebind", "swap-fold", "aug-fold", "twin-literals", "remove-dup"]
     assert len(kinds) == N_KINDS
     kind = kinds[k % len(kinds)]
     v = f"v{k}"
@@ -50,13 +50,15 @@ def site(rng, k):
         a, b = rng.choice([(5, 2), (1, 3)])
         return dict(kind=kind, var=v, decl=f"{v} = {a}", lit=f"led.blink({a}, times=2)", use=f"led.blink({v}, times=2)", expr=f"led.blink({a} * 1, times=1 + 1)", mut=f"{v} = {b}", mut_lit=f"led.blink({b}, times=2)")
     if kind == "len-str":
-        a, b = rng.choice([("hello", "hi"), ("", "abc"), ("x y", "longer text")])
+        # (the last two contain characters that are escaped in the C++ literal: they still count once)
+        a, b = rng.choice([("hello", "hi"), ("", "abc"), ("x y", "longer text"), ('say \\"hi\\"', "ab"), ("C:\\\\temp", 'q\\"'), ('a\\"b', "x\\\\y")])
         return dict(kind=kind, var=v, decl=f'{v} = "{a}"', lit=f'mon.write(len("{a}"))', use=f"mon.write(len({v}))", expr=f'mon.write(len("{a}") + 0)', mut=f'{v} = "{b}"', mut_lit=f'mon.write(len("{b}"))', stale="KF-stale-len-str")
     if kind == "len-list":
         a = rng.choice([[1, 2, 3], [5], [4, 4]])
         return dict(kind=kind, var=v, decl=f"{v} = {a}", lit=f"mon.write({len(a)})", use=f"mon.write(len({v}))", expr=f"mon.write(len({a}))", mut=f"{v}.append(9)", mut_lit=f"mon.write({len(a) + 1})", stale="KF-stale-len")
     if kind == "flash-pattern":
-        a, b = rng.choice([([1, 0, 1], [0, 1, 0]), ([1, 128, 0], [255, 0, 1]), ([1, 0], [0, 1, 1])])
+        # (patterns ending in repeated entries: every entry is held for delay_ms, also the last ones)
+        a, b = rng.choice([([1, 0, 1], [0, 1, 0]), ([1, 128, 0], [255, 0, 1]), ([1, 0], [0, 1, 1]), ([1, 0, 0], [1, 1, 1]), ([1, 1, 1], [0, 0, 0]), ([128, 0, 0, 0], [1, 2, 2, 2])])
         return dict(kind=kind, var=v, decl=f"{v} = {a}", lit=f"led.flash_pattern({a}, 3)", use=f"led.flash_pattern({v}, 3)", expr=None, mut=f"{v} = {b}", mut_lit=f"led.flash_pattern({b}, 3)", stale="KF-stale-flash-pattern")
     if kind == "glyph":
         rows = [rng.choice([0, 31, 17, 4, 10]) for _ in range(7)]
@@ -107,6 +109,16 @@ def site(rng, k):
         use = (f's{k} = "{a}"\nt{k} = "{b}"\ns{k}, t{k} = t{k}, s{k}\nmon.write(len(t{k}))\nsleep(len(s{k}) * 10 + 1)\n'
                f"x{k} = {x}\ny{k} = {y}\n{tup}\npa{k} = [x{k}, y{k}, 1]\nled.flash_pattern(pa{k}, 2)\nsleep(y{k} + 1)")
         lit = f'mon.write({len(a)})\nsleep({len(b) * 10 + 1})\nled.flash_pattern({[nx, ny, 1]}, 2)\nsleep({ny + 1})'
+        return dict(kind=kind, var=v, decl=f"{v} = 0", lit=lit, use=use, expr=use, mut=None, mut_lit=None, whole=True)
+    if kind == "remove-dup":
+        # remove(x) takes out the FIRST x only; whatever is folded from the list afterwards must see the others
+        vals = rng.choice([[1, 0, 1, 0], [5, 5, 7], [0, 2, 0, 2, 0]])
+        x = rng.choice(sorted(set(v2 for v2 in vals if vals.count(v2) > 1)))
+        after = list(vals)
+        after.remove(x)
+        use = (f"rd{k} = {vals}\nrd{k}.remove({x})\nmon.write(len(rd{k}))\nled.flash_pattern(rd{k}, 2)\nfor q{k} in range(len(rd{k})):\n    mon.write(rd{k}[q{k}])\n"
+               f"mon.write(rd{k}[len(rd{k}) - 1])")
+        lit = (f"mon.write({len(after)})\nled.flash_pattern({after}, 2)\n" + "\n".join(f"mon.write({v2})" for v2 in after) + f"\nmon.write({after[-1]})")
         return dict(kind=kind, var=v, decl=f"{v} = 0", lit=lit, use=use, expr=use, mut=None, mut_lit=None, whole=True)
     if kind == "twin-literals":
         # two lists written with the same literal text are two lists: changing one leaves every fold on the other alone
